@@ -77,8 +77,11 @@ inline DocCase decode_doc(Src &s, const DocOpts &o) {
     }
     case DM_CHAIN: {
         // nesting near the limits: levels around depth, 255, 256
-        unsigned sel = s.u8() % 6, levels;
+        unsigned sel = s.u8() % 8, levels;
+        unsigned cstyle = s.u8() % 8;
         switch (sel) {
+        case 6: levels = 258 + s.u16() % 400; if (cstyle % 4 == 0) cstyle++; break;     // beyond 256 levels (mixed kinds only: the pure chains cannot be valid there)
+        case 7: levels = 255 * (1 + s.u8() % 10) + s.u8() % 12; cstyle |= 3; break;        // blocks of 255 arrays under up to 10 objects: up to ~2560 levels
         case 0: levels = c.depth; break;
         case 1: levels = c.depth + 1; break;
         case 2: levels = 254 + s.u8() % 4; break;
@@ -86,7 +89,7 @@ inline DocCase decode_doc(Src &s, const DocOpts &o) {
         case 4: levels = c.depth > 1 ? c.depth - 1 : 1; break;
         default: levels = 1 + s.u8() % 12; break;
         }
-        c.tree = gen_chain(s, levels, c.array_root, s.u8() % 8);
+        c.tree = gen_chain(s, levels, c.array_root, cstyle);
         c.have_tree = true;
         c.doc = ref::encode(c.tree);
         if (o.allow_invalid && (s.u8() % 4 == 0)) c.muts.push_back(mutate_bytes(c.doc, s));
